@@ -1,5 +1,5 @@
 //! C20 - exports and persistence are faithful (serde JSON round trips, GFA, JSON export).
-use crate::case::{GCase, Part};
+use vglue::case::{GCase, Part};
 use crate::pipe::*;
 use debruijn::compression::*;
 use debruijn::dna_string::{DnaString, PackedDnaStringSet};
